@@ -89,6 +89,46 @@ def tree_twin_counts(ctx, run, rule='R12.2'):
         run.proved(rule, b.path, 'array-counts', 'no result for two arrays depends on comparing their lengths', loc)
 
 
+def kind_predicates(ctx, run, rule='R12.2'):
+    """The tree implementation decides its cases with Value::is_array / is_object / is_scalar.  Each is evaluated for every variant of
+    Value: is_array holds exactly for Array, is_object exactly for Object, is_scalar for exactly the other variants (null included)."""
+    from enumeval import enum_pred
+    f = ctx.facts
+    adt = f.adts.get('value::Value')
+    tw = f.one('functions::contains_value')
+    if adt is None or tw is None:
+        run.undecided(rule, 'functions::contains_value', 'kind-predicates', 'Value or contains_value not found (anchor lost)')
+        return
+    vs = [v['name'] for v in adt['variants']]
+    want = {'is_array': lambda v: v == 'Array', 'is_object': lambda v: v == 'Object', 'is_scalar': lambda v: v not in ('Array', 'Object')}
+    used = set()
+    for x in ctx.cg.reachable([tw.path]):
+        if x.startswith('functions::contains_value') and x in f.bodies:
+            for bb, t in f.bodies[x].calls():
+                nm = callee_name(t)
+                last = canon(nm).split('::')[-1]
+                if last in want and 'Value' in nm:
+                    used.add((last, nm))
+    for last, nm in sorted(used):
+        cands = [p_ for p_ in f.bodies if p_ == nm or canon(p_) == canon(nm)]
+        if len(cands) != 1:
+            run.undecided(rule, nm, f'kind-predicate[{last}]', 'the body of this predicate was not found: not decided')
+            continue
+        b = f.bodies[cands[0]]
+        loc = f'{b.file}:{b.line}'
+        got = [enum_pred(f, cands[0], i) for i in range(len(vs))]
+        if any(not isinstance(g_, bool) for g_ in got):
+            run.undecided(rule, b.path, f'kind-predicate[{last}]', 'the predicate is not a function of the variant alone in a form this rule evaluates: not decided', loc)
+            continue
+        wrong = [vs[i] for i in range(len(vs)) if got[i] != want[last](vs[i])]
+        if wrong:
+            run.violation(rule, b.path, f'kind-predicate[{last}]', f'{last}() answers {[got[vs.index(w)] for w in wrong]} for Value::{", Value::".join(wrong)}: the tree implementation of contains '
+                          f'then takes the wrong case for such a value (the byte implementation reads the entry kind and does not)', loc)
+        else:
+            run.proved(rule, b.path, f'kind-predicate[{last}]', f'evaluated for all {len(vs)} variants of Value: true exactly for {[v for v in vs if want[last](v)]}', loc)
+    run.floor(rule, 'kind predicates used by contains_value', len(used), 2)
+
+
 def tree_twin_guards(ctx, run, rule='R12.2'):
     f = ctx.facts
     # ---- R12.2 tree twin: recursion guards
@@ -142,7 +182,7 @@ def tree_twin_guards(ctx, run, rule='R12.2'):
 
 def check(ctx, run):
     f = ctx.facts
-    run.rules_run = ['R12.1', 'R12.2', 'R12.3']
+    run.rules_run = ['R12.1', 'R12.2', 'R12.3', 'R12.4', 'R05.14']
     g = lambda n: cv(f, n)
     # ---- R12.1
     slice_eq_users = []
@@ -185,11 +225,12 @@ def check(ctx, run):
         ps, _ = explore(b)
         num_ok = False
         raw_for_num = False
+        unjust_false = []
         for p in ps:
             if p.end[0] != 'return':
                 continue
             tc = [c for c in p.conds if c[0][0] == 'bin' and c[0][1] == 'Eq' and any(const_of(x) == g('NUMBER_TAG') for x in (c[0][2], c[0][3]))]
-            is_num = any(c[2] is True for c in tc)
+            is_num = any(c[2] is True for c in tc) or any(c[1] == 'eq' and c[2] == g('NUMBER_TAG') and c[0][0] != 'bin' and 'type_code' in show(c[0]) for c in p.conds)
             r = deref_all(p.ret)
             dec = sum(1 for e in p.calls() if called(e[1], 'Number::decode'))
             if is_num and dec == 2 and r[0] == 'call' and canon(r[1]).endswith('PartialEq::eq') and 'Number' in (r[1]):
@@ -197,6 +238,14 @@ def check(ctx, run):
             both_ok = [c for c in p.conds if c[0][0] == 'discr' and is_call(c[0][1], 'Number::decode') and c[1] == 'eq' and c[2] == 0]
             if is_num and len(both_ok) == 2 and not (r[0] == 'call' and 'Number' in r[1]):
                 raw_for_num = True
+            # a NUMBER_TAG pair answered `false` although neither decode failed and the numbers were never compared (e.g. because the
+            # payload widths are equal and the bytes differ): Int64(7) / UInt64(7), 2^32 / 2^32 as a float have equal widths
+            dec_failed = any(c[0][0] == 'discr' and is_call(c[0][1], 'Number::decode') and not (c[1] == 'eq' and c[2] == 0) for c in p.conds)
+            if is_num and not dec_failed and len(both_ok) < 2 and r[0] == 'const' and r[1] is False:
+                unjust_false.append('; '.join(f'{show(c[0])[:60]} {c[1]} {c[2]}' for c in p.conds if c not in tc)[:200])
+        if unjust_false and num_ok and not raw_for_num:
+            run.violation('R12.1', b.path, 'numbers[undecoded-false]', f'a pair of NUMBER_TAG payloads is answered false on a path that never compares the decoded numbers ({unjust_false[0]}): '
+                          'equal numbers in different encodings of the same width (Int64(7) / UInt64(7), 4294967296 / 4294967296.0) stop matching', f'{b.file}:{b.line}')
         ok = num_ok and not raw_for_num
         (run.proved if ok else run.violation)('R12.1', b.path, 'numbers', 'NUMBER_TAG payloads are decoded and compared with Number ==' if ok else
                                                'two decodable numbers are not compared as numbers in scalar_eq', f'{b.file}:{b.line}')
@@ -296,8 +345,11 @@ def check(ctx, run):
         elif n_look:
             run.proved('R12.2', b.path, 'same-key', f'{n_look} member lookup(s), all case-sensitive', f'{b.file}:{b.line}')
     tree_twin_counts(ctx, run, 'R12.2')
+    kind_predicates(ctx, run, 'R12.2')
     dispatch.r11_1(ctx, run, rule='R12.3/R11.1', only={'functions::contains'})
     import boundaries
     _bf = lambda p_: p_ in ('functions::contains_jsonb', 'functions::contains_value')
     boundaries.check(ctx, run, 'R12.4', [p_ for p_ in sorted(boundaries.load_baseline() or {}) if _bf(p_)], 'containment answers false')
+    from rules import walkers as _walkers
+    _walkers.w_pair(ctx, run, 'R12.9/R05.14', only=lambda p_: 'contains' in p_)
     return report.finish(run, level='other', explanation=EXPLANATION, assumptions=["A1: valid documents"])
